@@ -127,7 +127,7 @@ impl_plain!(FuzzyHash, "FuzzyHash", 32, true);
 impl_plain!(LongFuzzyHash, "LongFuzzyHash", 64, true);
 
 /// The two dual variants.
-pub trait Dual: Sized + Copy + Debug + Eq + Ord + Hash + Send + Sync {
+pub trait Dual: Sized + Copy + Debug + Eq + Ord + Hash + std::fmt::Display + Send + Sync {
     type Raw: Plain;
     type Norm: Plain;
     const NAME: &'static str;
